@@ -181,3 +181,190 @@ Lemma ex_tree_ukeys : ukeys ex_tree_P.
 Proof. apply ukeysb_ukeys. vm_compute. reflexivity. Qed.
 Lemma ex_tree_cong : cong eq ex_tree_P ex_tree_P.
 Proof. apply cong_refl. Qed.
+
+(* ------------------------------------------------------------------ cat *)
+Lemma sumZ_nonneg' l : nonneg l -> 0 <= sumZ l.
+Proof. unfold sumZ. induction l as [|y l IH]; cbn; intros Hn; [lia|]. apply nonneg_cons in Hn. destruct Hn as [Hy Hn]. specialize (IH Hn). lia. Qed.
+
+(* shapes of two operands of cat along position i: same rank, equal off position i *)
+Definition cat_R (i : nat) (a b : list Z) : Prop := List.length a = List.length b /\ remove_nth i a = remove_nth i b.
+
+Definition ents_of (t : tree) : list (string * tree) := match t with Node _ _ e => e | Leaf _ => [] end.
+
+Lemma lookup_In k (l : list (string * tree)) c : lookup k l = Some c -> In (k, c) l.
+Proof.
+  induction l as [|[k' c'] l IH]; cbn [lookup]; intros H; [discriminate|].
+  destruct (String.eqb k k') eqn:E; [apply String.eqb_eq in E; subst; injection H as ->; left; reflexivity|right; exact (IH H)].
+Qed.
+
+Lemma collect_In k others cs : collect k others = Some cs -> Forall2 (fun o c' => In (k, c') (ents_of o)) others cs.
+Proof.
+  revert cs. induction others as [|o os IH]; intros cs H; cbn [collect] in H; [injection H as <-; constructor|].
+  destruct o as [sh|b n e]; [discriminate|]. destruct (lookup k e) as [v|] eqn:E1; [|discriminate].
+  destruct (collect k os) as [vs|] eqn:E2; [|discriminate]. injection H as <-.
+  constructor; [apply lookup_In; exact E1|apply IH; reflexivity].
+Qed.
+
+Lemma wf_child b n e k c : wf (Node b n e) -> In (k, c) e -> wf c /\ exists tl, top_shape c = b ++ tl.
+Proof. intros Hw Hin. inversion Hw as [|? ? ? _ _ HF]; subst. rewrite Forall_forall in HF. exact (HF _ Hin). Qed.
+
+Lemma remove_nth_inj_tail (a b ta tb : list Z) i :
+  (i < List.length a)%nat -> List.length a = List.length b ->
+  remove_nth i (a ++ ta) = remove_nth i (b ++ tb) -> remove_nth i a = remove_nth i b /\ ta = tb.
+Proof.
+  intros Hi Hl H. rewrite !remove_nth_app_l in H by lia.
+  assert (Hl2 : List.length (remove_nth i a) = List.length (remove_nth i b)) by (rewrite !remove_nth_length; lia).
+  split.
+  - apply (f_equal (firstn (List.length (remove_nth i a)))) in H. rewrite firstn_app_l, firstn_all in H by lia.
+    rewrite Hl2, firstn_app_l, firstn_all in H by lia. exact H.
+  - apply (f_equal (skipn (List.length (remove_nth i a)))) in H. rewrite skipn_app_exact in H.
+    rewrite Hl2, skipn_app_exact in H. exact H.
+Qed.
+
+Lemma set_nth_remove (a : list Z) i x : (i < List.length a)%nat -> set_nth i x a = firstn i a ++ x :: skipn (S i) a.
+Proof. reflexivity. Qed.
+
+Lemma eq_off_R i a b : (i < List.length a)%nat -> cat_R i a b -> Nat.eqb (List.length b) (List.length a) && eq_off i a b = true.
+Proof.
+  intros Hi [Hl Hr]. apply andb_true_iff. split; [apply Nat.eqb_eq; lia|]. unfold eq_off. rewrite Hr. apply list_eqb_refl.
+Qed.
+
+Lemma all_leaves_shapes l shs : all_leaves l = Some shs -> map top_shape l = shs.
+Proof.
+  revert shs. induction l as [|o os IH]; intros shs H.
+  - cbn in H. injection H as <-. reflexivity.
+  - unfold all_leaves in H. cbn [fold_right] in H. fold (all_leaves os) in H.
+    destruct o as [s|b n e]; [|discriminate]. destruct (all_leaves os) as [r|] eqn:E; [|discriminate].
+    injection H as <-. cbn [map top_shape]. f_equal. apply IH. reflexivity.
+Qed.
+
+Theorem cat_lifts : forall fuel t others i bs tl,
+  wf t -> ukeys t -> top_shape t = bs ++ tl -> (i < List.length bs)%nat ->
+  Forall (cong (cat_R i) t) others -> Forall wf others ->
+  nonneg (map (fun o => nthZ (top_shape o) i) others) ->
+  (depth t <= fuel)%nat ->
+  exists t', cat_at fuel t others (Z.of_nat i) = Done t' /\
+             rel bs (set_nth i (nthZ bs i + sumZ (map (fun o => nthZ (top_shape o) i) others)) bs) t t' /\ wf t'.
+Proof.
+  induction fuel as [|fuel IHf]; intros t others i bs tl Hw Hu Ht Hi Hc Hwo Hnn Hd.
+  { destruct t; cbn in Hd; lia. }
+  set (sizes := map (fun o => nthZ (top_shape o) i) others) in *.
+  assert (Hsz : map (fun o => nthZ (top_shape o) i) others = sizes) by reflexivity.
+  destruct t as [sh|b nm ents]; cbn [top_shape] in Ht; subst b || subst sh; cbn [cat_at].
+  - inversion Hw as [? Hn|]; subst.
+    destruct (all_leaves_cong (bs ++ tl) others Hc) as [shs [Ha [Hr Hl]]]. rewrite Ha.
+    assert (Hsizes : map (fun s => nthZ s i) shs = map (fun o => nthZ (top_shape o) i) others)
+      by (rewrite <- (all_leaves_shapes _ _ Ha), map_map; reflexivity).
+    unfold t_cat. destruct (bs ++ tl) as [|x0 r0] eqn:E; [destruct bs; cbn in *; [lia|discriminate]|]. rewrite <- E in *.
+    rewrite wrap_dim_nat by (rewrite app_length; lia). cbn [bind].
+    assert (Hchk : forallb (fun t0 => Nat.eqb (List.length t0) (List.length (bs ++ tl)) && eq_off i (bs ++ tl) t0) shs = true).
+    { apply forallb_forall. intros s Hs. rewrite Forall_forall in Hr. apply eq_off_R; [rewrite app_length; lia|exact (Hr s Hs)]. }
+    rewrite Hchk. cbn [lift bindo map sumZ fold_right]. fold (sumZ (map (fun t0 => nthZ t0 i) shs)).
+    rewrite Hsizes, nthZ_app_l, set_nth_app_l by lia.
+    eexists. split; [reflexivity|]. split; [constructor|]. constructor.
+    apply nonneg_app in Hn. apply nonneg_app. split; [|tauto]. apply nonneg_set; [|tauto].
+    pose proof (nonneg_nth bs i ltac:(tauto)). pose proof (sumZ_nonneg' _ Hnn). subst sizes. lia.
+  - inversion Hw as [|? ? ? Hnn0 Hnm HF]; subst. inversion Hu as [|? ? ? Hnd HFu]; subst.
+    destruct (Z.of_nat i <? 0) eqn:E0; [lia|]. rewrite app_length.
+    destruct (Z.of_nat (List.length bs + List.length tl) <=? Z.of_nat i) eqn:E1; [lia|].
+    change fixed_D22 with false. cbn [andb].
+    destruct (Z.of_nat i <? - Z.of_nat (List.length bs + List.length tl)) eqn:E2; [lia|].
+    (* every other operand is a node of the same rank *)
+    assert (Hnodes : forallb (fun t => match t with Node _ _ _ => true | Leaf _ => false end) others = true).
+    { apply forallb_forall. intros o Ho. rewrite Forall_forall in Hc. specialize (Hc o Ho). inversion Hc; subst. reflexivity. }
+    rewrite Hnodes.
+    assert (Hranks : forallb (fun b => (- len b <=? Z.of_nat i) && (Z.of_nat i <? len b)) (map top_shape others) = true).
+    { apply forallb_forall. intros b Hb. apply in_map_iff in Hb. destruct Hb as [o [<- Ho]].
+      rewrite Forall_forall in Hc. specialize (Hc o Ho). inversion Hc as [|? ? ? b2 n2 e2 [HRl _] _]; subst. cbn [top_shape].
+      unfold len. rewrite <- HRl, app_length. apply andb_true_iff. split; lia. }
+    rewrite Hranks. cbn [negb].
+    assert (Hpos : forall b : list Z, py_pos b (Z.of_nat i) = i) by (intros; unfold py_pos; rewrite E0; apply Nat2Z.id).
+    rewrite Hpos. cbn [map sumZ fold_right]. rewrite Hpos.
+    assert (Hmm : map (fun b => nthZ b (py_pos b (Z.of_nat i))) (map top_shape others) = sizes).
+    { rewrite map_map. rewrite <- Hsz. apply map_ext. intros o. rewrite Hpos. reflexivity. }
+    fold (sumZ (map (fun b => nthZ b (py_pos b (Z.of_nat i))) (map top_shape others))). rewrite Hmm.
+    rewrite nthZ_app_l, set_nth_app_l by lia.
+    set (bs' := set_nth i (nthZ bs i + sumZ sizes) bs).
+    assert (Hents : forall l, (forall k c, In (k, c) l -> In (k, c) ents) -> exists ents',
+      (fix go (l : list (string * tree)) : out (list (string * tree)) :=
+         match l with
+         | [] => Done []
+         | (k, c) :: r =>
+             match collect k others with
+             | None => Raised EKey
+             | Some cs => let* c' := cat_at fuel c cs (Z.of_nat i) in let* r' := go r in Done ((k, c') :: r')
+             end
+         end) l = Done ents' /\
+      Forall2 (fun e e' => fst e = fst e' /\ rel bs bs' (snd e) (snd e')) l ents' /\
+      Forall (fun e => wf (snd e) /\ exists tl2, top_shape (snd e) = (bs' ++ tl) ++ tl2) ents').
+    { intros l. induction l as [|[k c] l IHl]; intros Hsub.
+      - exists []. split; [reflexivity|split; constructor].
+      - assert (Hin : In (k, c) ents) by (apply Hsub; left; reflexivity).
+        destruct (collect_cong k c ents (bs ++ tl) nm others Hc Hnd Hin) as [cs [Hcs [Hall Hlen]]]. rewrite Hcs.
+        pose proof (collect_In k others cs Hcs) as HIn.
+        rewrite Forall_forall in HF, HFu. destruct (HF _ Hin) as [Hwc [tl2 Hcsh]]. specialize (HFu _ Hin). cbn [snd] in *.
+        pose proof (depth_child k c (bs ++ tl) nm ents Hin) as Hdc.
+        (* the operands' entries are well formed and have the operands' sizes at position i *)
+        assert (Hcs_wf : Forall wf cs /\ map (fun o => nthZ (top_shape o) i) cs = sizes).
+        { rewrite <- Hsz. clear - HIn Hwo Hc Hi. revert Hwo Hc. induction HIn as [|o c' os cs' Hino _ IH]; intros Hwo Hc; [split; constructor|].
+          pose proof (Forall_inv Hwo) as Hwo1. pose proof (Forall_inv Hc) as Hc1.
+          destruct (IH (Forall_inv_tail Hwo) (Forall_inv_tail Hc)) as [I1 I2].
+          inversion Hc1 as [|? ? ? b2 n2 e2 [HRl _] _]; subst. cbn [ents_of] in Hino.
+          destruct (wf_child _ _ _ _ _ Hwo1 Hino) as [Hwc' [tl' Hts]].
+          split; [constructor; assumption|]. cbn [map top_shape]. rewrite I2. f_equal.
+          rewrite Hts. apply nthZ_app_l. rewrite <- HRl, app_length. lia. }
+        destruct Hcs_wf as [Hcw Hcsz].
+        destruct (IHf c cs i (bs ++ tl) tl2 Hwc HFu Hcsh ltac:(rewrite app_length; lia) Hall Hcw ltac:(rewrite Hcsz; exact Hnn) ltac:(lia))
+          as [c' [Hc' [Hr' Hw']]]. rewrite Hcsz in Hr'.
+        rewrite Hc'. cbn [bindo]. rewrite nthZ_app_l, set_nth_app_l in Hr' by lia. fold bs' in Hr'.
+        destruct (IHl ltac:(intros k0 c0 H0; apply Hsub; right; exact H0)) as [l' [Hl' [HF2 HF3]]].
+        rewrite Hl'. cbn [bindo]. exists ((k, c') :: l'). split; [reflexivity|]. split; constructor; try assumption; cbn [fst snd].
+        + split; [reflexivity|]. eapply rel_weaken. exact Hr'.
+        + split; [exact Hw'|]. destruct (rel_top _ _ _ _ Hr') as [tl3 [_ E3]]. exists tl3. exact E3. }
+    destruct (Hents ents ltac:(auto)) as [ents' [He [HF2 HF3]]]. rewrite He. cbn [bindo].
+    eexists. split; [reflexivity|]. split; [constructor; exact HF2|].
+    constructor; [| |exact HF3].
+    + apply nonneg_app in Hnn0. apply nonneg_app. split; [|tauto]. unfold bs'. apply nonneg_set; [|tauto].
+      pose proof (nonneg_nth bs i ltac:(tauto)). pose proof (sumZ_nonneg' _ Hnn). subst sizes. lia.
+    + destruct nm as [ln|]; cbn [has_names names_wf] in *; [|exact I]. rewrite Hnm. unfold bs'.
+      rewrite !app_length, set_nth_length by lia. reflexivity.
+Qed.
+
+Lemma wf_top_nonneg t : wf t -> nonneg (top_shape t).
+Proof. intros H. inversion H; subst; assumption. Qed.
+
+(* the call as the user makes it: any dim torch accepts; the operands have the keys of the first one and, entry by
+   entry, its shapes off the concatenation dim *)
+Theorem cat_acts_on_batch_dims : forall t others d bs' i,
+  wf t -> ukeys t -> is_node t -> Forall wf others ->
+  wrap_dim d (List.length (top_shape t)) = Ok i -> Forall (cong (cat_R i) t) others ->
+  t_cat (map top_shape (t :: others)) d = Ok bs' ->
+  exists t', td_cat (t :: others) d = Done t' /\ top_shape t' = bs' /\ rel (top_shape t) bs' t t' /\ wf t'.
+Proof.
+  intros t others d bs' i Hw Hu Hn Hwo Hi Hc Ht. destruct t as [sh|bs nm ents]; [contradiction|]. cbn [top_shape map] in *.
+  pose proof (wrap_dim_ok _ _ _ Hi) as [Hi1 Hi2].
+  unfold t_cat in Ht. destruct bs as [|b0 bs0] eqn:Eb; [cbn in Hi1; lia|]. rewrite <- Eb in *.
+  rewrite Hi in Ht. cbn [bind] in Ht. destruct (forallb _ _); [|discriminate]. injection Ht as <-.
+  assert (Hnn : nonneg (map (fun o => nthZ (top_shape o) i) others)).
+  { unfold nonneg. rewrite Forall_forall. intros x Hx. apply in_map_iff in Hx. destruct Hx as [o [<- Ho]].
+    apply nonneg_nth. apply wf_top_nonneg. rewrite Forall_forall in Hwo. exact (Hwo o Ho). }
+  destruct (cat_lifts (S (depth (Node bs nm ents))) (Node bs nm ents) others i bs [] Hw Hu
+              ltac:(cbn; rewrite app_nil_r; reflexivity) Hi1 Hc Hwo Hnn ltac:(lia)) as [t' [Hs [Hr Hw']]].
+  assert (Hraw : cat_at (S (depth (Node bs nm ents))) (Node bs nm ents) others d
+                 = cat_at (S (depth (Node bs nm ents))) (Node bs nm ents) others (Z.of_nat i)).
+  { cbn [cat_at]. destruct (d <? 0) eqn:E1; destruct (Z.of_nat i <? 0) eqn:E2; try lia.
+    - replace (Z.of_nat (List.length bs) + d) with (Z.of_nat i) by lia. reflexivity.
+    - replace d with (Z.of_nat i) by lia. reflexivity. }
+  cbn [td_cat]. rewrite Hraw, Hs. exists t'. split; [reflexivity|].
+  rewrite map_map. split; [|split; assumption].
+  destruct (rel_top _ _ _ _ Hr) as [tl [E1 E2]]. cbn [top_shape] in E1.
+  rewrite <- (app_nil_r bs) in E1 at 1. apply app_inv_head in E1. subst tl. rewrite app_nil_r in E2. exact E2.
+Qed.
+
+Lemma cong_refl_R (R : list Z -> list Z -> Prop) : (forall a, R a a) -> forall t, cong R t t.
+Proof.
+  intros HR. induction t as [sh|bs nm ents IH] using tree_ind'; constructor; try apply HR.
+  induction ents as [|e l IHl]; constructor; [split; [reflexivity|exact (Forall_inv IH)]|exact (IHl (Forall_inv_tail IH))].
+Qed.
+Lemma ex_tree_cong_cat : cong (cat_R 2) ex_tree_P ex_tree_P.
+Proof. apply cong_refl_R. intros a. split; reflexivity. Qed.
